@@ -2,8 +2,12 @@ SPECIFICATION Spec
 CONSTANTS K = 2 SendPuncture = TRUE PunctureFirst = TRUE FollowAll = FALSE MaxId = 60 QuietCalls = TRUE
           APlaces = {"pub", "nat"} CandPlaces = {"pub", "nat", "withA"}
           MaxContactsA = 2 MaxContactsB = 1
+          MinContacts = 1 MaxRebinds = 0 Clock0 = 0 Refresh = TRUE Ident16 = TRUE
 INVARIANT TypeOK
 INVARIANT Reach
 INVARIANT LanMeet
 INVARIANT AsksPuncture
+INVARIANT HandsOutCurrent
+INVARIANT HoldsWorking
+INVARIANT IdentFits
 CHECK_DEADLOCK TRUE
